@@ -92,12 +92,21 @@ def cases(tier, seed):
             for agg in ("all", "pc"):
                 for second in (["missing", "newstate"], ["nan_result", "newstate"]):
                     out.append(dict(seed=seed, bg=S.bg_for(setup), probes=[["state_blocklisted", "newstate"], second], cfg=S.cfg_for(setup, agg, policy, 100)))
+    # units that are outside the model for one reason *and* have not shown up in the feed (or only as a row without results)
+    for st in E.COMPOSITE_STATUSES:
+        for loc in ("pop0", "newcounty", "newstate"):
+            for setup in ("np1", "np2", "ga1", "bs1"):
+                for policy in ("zero", "drop"):
+                    for agg in ("all", "pc_cf"):
+                        out.append(dict(seed=seed, bg=S.bg_for(setup), probes=[[st, loc]], cfg=S.cfg_for(setup, agg, policy, 100)))
     # two polls of one night: the caller keeps its feed DataFrame and overwrites the counts in place; the second run must
     # report the second poll's counts
     for setup in ("np2", "ga1", "bs1"):
         for agg in ("all", "pc"):
             for same_client in (False, True):
                 out.append(dict(kind="polls", seed=seed, bg=S.bg_for(setup), probes=[["nonrep_partial", "pop0"], ["unexpected", "newcounty"]], cfg=S.cfg_for(setup, agg, "drop", 100), same_client=same_client))
+                # the baseline file is corrected between the polls (two units were missing from it at first)
+                out.append(dict(kind="polls", seed=seed, bg=S.bg_for(setup), probes=[["nonrep_partial", "pop0"], ["unexpected", "newcounty"]], cfg=S.cfg_for(setup, agg, "drop", 100), same_client=same_client, corrected_baseline=True))
     # outlier models enabled (the default of the public API): 24 reporting units, one of them an outlier for both the
     # turnout-factor and the margin model, one for the margin model only
     for setup in ("bs1", "np1", "ga1"):
@@ -232,7 +241,11 @@ def _polls(case):
             v.update(r_dem=u["r_dem"] // 2, r_gop=u["r_gop"] // 3, r_turnout=u["r_turnout"] // 2, pev=min(u["pev"], 50.0))
         else:
             v.update(r_dem=int(u["r_dem"] * 0.9), r_gop=int(u["r_gop"] * 0.8), r_turnout=int(u["r_turnout"] * 0.9))
+        if case.get("corrected_baseline") and u["role"] == "bg" and i in (1, 4):
+            v["in_baseline"] = False
         units1.append(v)
+    if case.get("corrected_baseline"):
+        cov["polls_with_corrected_baseline"] += 1
     baseline, feed = E.frames(units1, cfg)
     _, feed2 = E.frames(units2, cfg)
     from elexmodel.client import ModelClient
